@@ -119,3 +119,92 @@ Theorem C02_reported_peaks_end_to_end : forall x peaks troughs z,
      (x_boundary x < z < Z.of_nat (length (x_raw x)) - x_boundary x)%Z).
 Proof. exact find_extrema_none_spec. Qed.
 Print Assumptions C02_reported_peaks_end_to_end.
+
+Theorem C02_reported_troughs_end_to_end : forall x peaks troughs z,
+  find_extrema x = Ok (peaks, troughs) -> x_first x = FNone ->
+  length (x_raw x) + 2 * x_padn x = length (x_pos x) ->
+  Forall (fun v => finite v = true) (x_raw x) ->
+  (In z troughs <->
+   exists a b p, closed_halfwave (x_pos x) false a b /\
+     first_argmin (pad (x_padn x) (x_raw x)) a b p /\
+     z = (Z.of_nat p - Z.of_nat (x_padn x))%Z /\
+     (x_boundary x < z < Z.of_nat (length (x_raw x)) - x_boundary x)%Z).
+Proof. exact find_extrema_none_spec_troughs. Qed.
+Print Assumptions C02_reported_troughs_end_to_end.
+
+(* completeness of the first_extrema trimming.  P, T: the boundary-filtered half-wave extrema.
+   'peak': at most the FIRST trough (exactly when it precedes the first peak) and at most the LAST
+   peak (exactly when no reported trough follows it) are removed; nothing in between can go *)
+Theorem C02_first_extrema_peak_trimming_complete : forall x peaks troughs pk tr,
+  find_extrema x = Ok (peaks, troughs) -> x_first x = FPeak ->
+  raw_extrema (x_pos x) (pad (x_padn x) (x_raw x)) = Ok (pk, tr) ->
+  let P := unpad_filter (x_padn x) (Z.of_nat (length (x_raw x))) (x_boundary x) pk in
+  let T := unpad_filter (x_padn x) (Z.of_nat (length (x_raw x))) (x_boundary x) tr in
+  (peaks = P \/ peaks = removelast P) /\ (troughs = T \/ troughs = tl T) /\
+  troughs = (if (headZ T <? headZ P)%Z then tl T else T) /\
+  peaks = (if (lastZ troughs <? lastZ P)%Z then removelast P else P).
+Proof. exact find_extrema_peak_first_complete. Qed.
+Print Assumptions C02_first_extrema_peak_trimming_complete.
+
+Theorem C02_first_extrema_trough_trimming_complete : forall x peaks troughs pk tr,
+  find_extrema x = Ok (peaks, troughs) -> x_first x = FTrough ->
+  raw_extrema (x_pos x) (pad (x_padn x) (x_raw x)) = Ok (pk, tr) ->
+  let P := unpad_filter (x_padn x) (Z.of_nat (length (x_raw x))) (x_boundary x) pk in
+  let T := unpad_filter (x_padn x) (Z.of_nat (length (x_raw x))) (x_boundary x) tr in
+  (troughs = T \/ troughs = removelast T) /\ (peaks = P \/ peaks = tl P) /\
+  peaks = (if (headZ P <? headZ T)%Z then tl P else P) /\
+  troughs = (if (lastZ peaks <? lastZ T)%Z then removelast T else T).
+Proof. exact find_extrema_trough_first_complete. Qed.
+Print Assumptions C02_first_extrema_trough_trimming_complete.
+
+(* the trough-first counterpart of C02_trimming_failure *)
+Theorem C02_trimming_failure_trough : forall x pk tr,
+  raw_extrema (x_pos x) (pad (x_padn x) (x_raw x)) = Ok (pk, tr) -> x_first x = FTrough ->
+  let P := unpad_filter (x_padn x) (Z.of_nat (length (x_raw x))) (x_boundary x) pk in
+  let T := unpad_filter (x_padn x) (Z.of_nat (length (x_raw x))) (x_boundary x) tr in
+  (find_extrema x = Err EIndex <-> T = [] \/ P = [] \/ exists p, P = [p] /\ (p < headZ T)%Z) /\
+  (forall e, find_extrema x = Err e -> e = EIndex).
+Proof. exact find_extrema_err_index_trough. Qed.
+Print Assumptions C02_trimming_failure_trough.
+
+(* peak_spec x z / trough_spec x z: z is the un-padded first maximum (minimum) of the padded raw
+   samples over a closed positive (negative) half-wave of the sign bits, inside the boundary margins *)
+Theorem C02_meaning_of_peak_spec : forall x z,
+  peak_spec x z <->
+  exists a b p, closed_halfwave (x_pos x) true a b /\
+    first_argmax (pad (x_padn x) (x_raw x)) a b p /\
+    z = (Z.of_nat p - Z.of_nat (x_padn x))%Z /\
+    (x_boundary x < z < Z.of_nat (length (x_raw x)) - x_boundary x)%Z.
+Proof. exact peak_spec_unfold. Qed.
+Print Assumptions C02_meaning_of_peak_spec.
+
+Theorem C02_meaning_of_trough_spec : forall x z,
+  trough_spec x z <->
+  exists a b p, closed_halfwave (x_pos x) false a b /\
+    first_argmin (pad (x_padn x) (x_raw x)) a b p /\
+    z = (Z.of_nat p - Z.of_nat (x_padn x))%Z /\
+    (x_boundary x < z < Z.of_nat (length (x_raw x)) - x_boundary x)%Z.
+Proof. exact trough_spec_unfold. Qed.
+Print Assumptions C02_meaning_of_trough_spec.
+
+(* end to end with first_extrema = 'peak': the reported peaks are EXACTLY the half-wave peaks inside
+   the margins that are followed by a half-wave trough inside the margins, and the reported troughs
+   EXACTLY the half-wave troughs inside the margins that are preceded by such a peak -- so only a
+   leading trough / a trailing peak is ever withheld, and nothing is invented *)
+Theorem C02_reported_extrema_end_to_end_peak_first : forall x peaks troughs,
+  find_extrema x = Ok (peaks, troughs) -> x_first x = FPeak ->
+  length (x_raw x) + 2 * x_padn x = length (x_pos x) ->
+  Forall (fun v => finite v = true) (x_raw x) ->
+  (forall z, In z peaks <-> peak_spec x z /\ exists t, trough_spec x t /\ (z < t)%Z) /\
+  (forall z, In z troughs <-> trough_spec x z /\ exists p, peak_spec x p /\ (p < z)%Z).
+Proof. exact find_extrema_peak_first_spec. Qed.
+Print Assumptions C02_reported_extrema_end_to_end_peak_first.
+
+Theorem C02_reported_extrema_end_to_end_trough_first : forall x peaks troughs,
+  find_extrema x = Ok (peaks, troughs) -> x_first x = FTrough ->
+  length (x_raw x) + 2 * x_padn x = length (x_pos x) ->
+  Forall (fun v => finite v = true) (x_raw x) ->
+  (forall z, In z troughs <-> trough_spec x z /\ exists p, peak_spec x p /\ (z < p)%Z) /\
+  (forall z, In z peaks <-> peak_spec x z /\ exists t, trough_spec x t /\ (t < z)%Z).
+Proof. exact find_extrema_trough_first_spec. Qed.
+Print Assumptions C02_reported_extrema_end_to_end_trough_first.
